@@ -570,7 +570,7 @@ func (ex *Exec) indexByte(v View, b *T, last bool) *T {
 			res = c.Ite(hit, it, res)
 		}
 	}
-	return res
+	return ex.tryConcretize(res)
 }
 
 // indexSub models strings.Index / LastIndex with naive search semantics.
